@@ -37,6 +37,9 @@ pub enum Op {
     Create { which: Which, caller: u8, times: u8 },
     AddHook { idx: u8 },
     RemoveHook { idx: u8 },
+    /// the distributor's owner rewrites the epoch configuration: a new duration (>= 1 day) and a genesis
+    /// moved by `genesis_shift_h` hours (earlier or later than the original one)
+    UpdateDistributorConfig { duration_ns: u64, genesis_shift_h: i16 },
 }
 
 #[derive(Clone, Debug, Serialize, Deserialize)]
@@ -65,6 +68,7 @@ fn op() -> BoxedStrategy<Op> {
         8 => (which(), 0u8..6, 1u8..4).prop_map(|(which, caller, times)| Op::Create { which, caller, times }),
         1 => prop_oneof![6 => 0u8..3, 1 => Just(3u8)].prop_map(|idx| Op::AddHook { idx }),
         1 => prop_oneof![3 => 0u8..3, 2 => Just(3u8)].prop_map(|idx| Op::RemoveHook { idx }),
+        1 => (prop_oneof![Just(DAY_NS), Just(2 * DAY_NS), DAY_NS..3 * DAY_NS], prop_oneof![Just(0i16), -72i16..240]).prop_map(|(duration_ns, genesis_shift_h)| Op::UpdateDistributorConfig { duration_ns, genesis_shift_h }),
     ]
     .boxed()
 }
@@ -160,6 +164,9 @@ impl Check for EpochClocks {
         let mut ew = EpochWorld::build(c).map_err(|e| Fail::new(format!("world build failed: {e}")))?;
         let genesis = START_TIME_S * 1_000_000_000 + c.genesis_offset_ns;
         let dur = c.duration_ns;
+        // the distributor's own configured duration / genesis (its owner may rewrite them mid-history)
+        let mut ddur = c.duration_ns;
+        let mut dgenesis = genesis;
         let owner = ew.bw.w.owner.clone();
         let mut registered = [false; 4];
         for i in 0..(c.initial_hooks.min(3) as usize) {
@@ -187,9 +194,9 @@ impl Check for EpochClocks {
                             Which::Manager => mgr.start_ns + dur,
                             Which::Distributor => {
                                 if dst.started {
-                                    dst.start_ns + dur
+                                    dst.start_ns + ddur
                                 } else {
-                                    genesis
+                                    dgenesis
                                 }
                             }
                         }
@@ -222,6 +229,31 @@ impl Check for EpochClocks {
                     let h = ew.hooks[i].to_string();
                     if ew.bw.w.exec(&owner, &m, &em::ExecuteMsg::RemoveHook { contract_addr: h }, &[]).is_ok() {
                         registered[i] = false;
+                    }
+                }
+                Op::UpdateDistributorConfig { duration_ns, genesis_shift_h } => {
+                    let d = ew.bw.dist.clone();
+                    let g = (genesis as i128 + *genesis_shift_h as i128 * 3_600_000_000_000).max(1) as u64;
+                    let r = ew.bw.w.exec(
+                        &owner,
+                        &d,
+                        &fd::ExecuteMsg::UpdateConfig {
+                            owner: None,
+                            bonding_contract_addr: None,
+                            fee_collector_addr: None,
+                            grace_period: None,
+                            distribution_asset: None,
+                            epoch_config: Some(white_whale_std::epoch_manager::epoch_manager::EpochConfig { duration: Uint64::new(*duration_ns), genesis_epoch: Uint64::new(g) }),
+                        },
+                        &[],
+                    );
+                    // read back what is configured now instead of assuming the update was taken
+                    let cfg: fd::Config = ew.bw.w.query(&d, &fd::QueryMsg::Config {}).map_err(|e| Fail::unobservable(format!("distributor Config query: {e}")))?;
+                    ddur = cfg.epoch_config.duration.u64();
+                    dgenesis = cfg.epoch_config.genesis_epoch.u64();
+                    rec.class(if r.is_ok() { "distributor_epoch_config_rewritten" } else { "distributor_epoch_config_update_rejected" });
+                    if r.is_ok() && dst.started {
+                        rec.class("distributor_epoch_config_rewritten_after_first_epoch");
                     }
                 }
                 Op::Create { which, caller, times } => {
@@ -290,14 +322,14 @@ impl Check for EpochClocks {
                             }
                             Which::Distributor => {
                                 let expect = if dst.started {
-                                    now >= dst.start_ns && now - dst.start_ns >= dur
+                                    now >= dst.start_ns && now - dst.start_ns >= ddur
                                 } else {
-                                    now >= genesis
+                                    now >= dgenesis
                                 };
                                 let r = ew.bw.new_epoch(&who);
                                 ensure!(
                                     r.is_ok() == expect,
-                                    "step {step}: distributor NewEpoch at {now} (current epoch {} started {}, started={}, genesis {genesis}, duration {dur}) was {} but the reference clock says {}: {:?}",
+                                    "step {step}: distributor NewEpoch at {now} (current epoch {} started {}, started={}, configured genesis {dgenesis}, configured duration {ddur}) was {} but the reference clock says {}: {:?}",
                                     dst.id,
                                     dst.start_ns,
                                     dst.started,
@@ -307,7 +339,7 @@ impl Check for EpochClocks {
                                 );
                                 if expect {
                                     dst.id += 1;
-                                    dst.start_ns = if dst.started { dst.start_ns + dur } else { genesis };
+                                    dst.start_ns = if dst.started { dst.start_ns + ddur } else { dgenesis };
                                     dst.started = true;
                                     accepted += 1;
                                     rec.class("distributor_created");
